@@ -41,6 +41,7 @@ def main():
     if reg.strip():
         open(os.path.join(out, "demo_reg.diff"), "w").write(reg)
     demo_dir = os.path.join(out, "demo")
+    assert untracked, "no demonstration files found in the worktree"
     shutil.rmtree(demo_dir, ignore_errors=True)
     for u in untracked:
         dst = os.path.join(demo_dir, u)
@@ -61,7 +62,7 @@ def main():
     # 3. baseline without demo
     if reg.strip():
         sh("git apply -R " + os.path.join(out, "demo_reg.diff"), wt)
-    stash = "/tmp/seed-demo-stash"
+    stash = "/tmp/seed-demo-stash-" + a.id
     shutil.rmtree(stash, ignore_errors=True)
     for u in untracked:
         os.makedirs(os.path.dirname(os.path.join(stash, u)), exist_ok=True)
@@ -85,6 +86,10 @@ def main():
     json.dump(meta, open(os.path.join(out, "meta.json"), "w"), indent=1)
     print(json.dumps({k: meta[k] for k in ("id", "confirmed")}, indent=None))
     print("check exit", rc4, *viol[:4], sep="\n  ")
+    for u in untracked:   # put the demonstration back
+        shutil.move(os.path.join(stash, u), os.path.join(wt, u))
+    if reg.strip():
+        sh("git apply " + os.path.join(out, "demo_reg.diff"), wt)
     shutil.rmtree(stash, ignore_errors=True)
     if not (demo_ok and rc3 == 0):
         print("NOT CONFIRMED"); sys.exit(1)
